@@ -18,6 +18,7 @@ import (
 	"os/exec"
 	"regexp"
 	"runtime"
+	"runtime/pprof"
 	"sort"
 	"strings"
 	"sync"
@@ -30,6 +31,7 @@ var (
 	flagChild   = flag.Bool("c13child", false, "internal: worker process")
 	flagWorkers = flag.Int("c13workers", 0, "number of worker processes (default: number of CPUs)")
 	flagFam     = flag.String("c13fam", "", "debug: only families whose name contains this")
+	flagProf    = flag.String("c13cpuprofile", "", "debug: CPU profile of a worker")
 	flagTimeout = flag.Duration("c13timeout", 30*time.Second, "per-case watchdog")
 )
 
@@ -117,6 +119,11 @@ func runCase(c Case) []V {
 }
 
 func childMain(e *vlib.Explore) {
+	if *flagProf != "" {
+		f, _ := os.Create(*flagProf)
+		pprof.StartCPUProfile(f)
+		defer pprof.StopCPUProfile()
+	}
 	initContent()
 	gs := groups(e.Thorough())
 	in := bufio.NewReaderSize(os.Stdin, 1<<20)
@@ -180,6 +187,20 @@ func childMain(e *vlib.Explore) {
 	out.Flush()
 }
 
+// caseOrderKey orders failing cases: fewer message bytes first, then shorter sequences, then the
+// smaller configuration; the representative of a signature is the minimum (independent of timing).
+func caseOrderKey(c *Case) string {
+	if c == nil {
+		return "~"
+	}
+	total := 0
+	for _, m := range c.Seq {
+		total += m.N
+	}
+	b, _ := json.Marshal(c)
+	return fmt.Sprintf("%010d|%02d|%02d|%02d|%s", total, len(c.Seq), c.Cfg.Level, c.Cfg.Bits, b)
+}
+
 // ---------- supervisor ----------
 
 type tail struct {
@@ -208,7 +229,7 @@ type worker struct {
 
 func startWorker(tier string) (*worker, error) {
 	cmd := exec.Command(os.Args[0], "-c13child", "-tier", tier, "-c13timeout", flagTimeout.String())
-	cmd.Env = append(os.Environ(), "GOMAXPROCS=2")
+	cmd.Env = append(os.Environ(), "GOMAXPROCS=2", "GOGC=400")
 	w := &worker{cmd: cmd, stderr: &tail{}}
 	var err error
 	if w.stdin, err = cmd.StdinPipe(); err != nil {
@@ -343,6 +364,7 @@ func main() {
 		e.FinishReplay(false, "")
 	}
 
+	t0 := time.Now()
 	gs := groups(e.Thorough())
 	var order []int
 	for i, g := range gs {
@@ -371,11 +393,29 @@ func main() {
 		next++
 		return order[next-1], true
 	}
+	// per signature: the number of cases and the smallest failing case (deterministic representative)
+	type agg struct {
+		n    int
+		best resp
+		key  string
+	}
+	viol := map[string]*agg{}
 	record := func(rs []resp) {
+		mu.Lock()
+		defer mu.Unlock()
 		for _, r := range rs {
-			if r.T == "v" {
-				e.Violation(r.Sig, r.Detail, r.Case)
+			if r.T != "v" {
+				continue
 			}
+			k := caseOrderKey(r.Case)
+			a := viol[r.Sig]
+			if a == nil {
+				a = &agg{best: r, key: k}
+				viol[r.Sig] = a
+			} else if k < a.key {
+				a.best, a.key = r, k
+			}
+			a.n++
 		}
 	}
 	var wg sync.WaitGroup
@@ -397,15 +437,19 @@ func main() {
 					}
 				}
 				g := gs[gi]
+				tg := time.Now()
 				rs, done, died := w.exchange(req{G: &gi}, 30*time.Minute)
+				if d := time.Since(tg); d > 5*time.Second && os.Getenv("C13_DEBUG") != "" {
+					fmt.Fprintf(os.Stderr, "slow group %d (%s): %.1fs, started at +%.1fs\n", gi, g, d.Seconds(), tg.Sub(t0).Seconds())
+				}
 				record(rs)
 				if died {
 					w.cmd.Wait()
 					site, reason := deathSite(w.stderr.String())
 					gg := g
-					e.Violation("C13.process-killed:"+g.Fam+"/"+g.Cfg.Mode+"/"+site,
-						fmt.Sprintf("worker process died while running group %s (an unrecoverable panic in a library goroutine or a runtime fatal error): %s", g, reason),
-						Case{Kind: "group", Cfg: g.Cfg, Group: &gg})
+					record([]resp{{T: "v", Sig: "C13.process-killed:" + g.Fam + "/" + g.Cfg.Mode + "/" + site,
+						Detail: fmt.Sprintf("worker process died while running group %s (an unrecoverable panic in a library goroutine or a runtime fatal error): %s", g, reason),
+						Case:   &Case{Kind: "group", Cfg: g.Cfg, Group: &gg}}})
 					mu.Lock()
 					deaths++
 					aborted[g.Fam]++
@@ -430,6 +474,11 @@ func main() {
 		}()
 	}
 	wg.Wait()
+	for sig, a := range viol {
+		for i := 0; i < a.n; i++ {
+			e.Violation(sig, a.best.Detail, a.best.Case)
+		}
+	}
 
 	var sidx []int
 	for gi := range samples {
